@@ -226,6 +226,7 @@ var c19KnownKeys = []struct {
 	{regexp.MustCompile(`^[a-z]+:(JSON_OBJECT|JSON-OUTPUT|--format|--out):interface-conversion-json-structure-is-json-[a-z]+-not-json-object$`), nil, "json-object-path-conflict"},
 	{regexp.MustCompile(`^[a-z]+:fifo-no-writer:timeout$`), nil, "fifo-no-writer-blocks"},
 	{regexp.MustCompile(`^[a-z]+:(SUBSTR|SUBSTRING):runtime-error-slice-bounds-out-of-range-n$`), regexp.MustCompile(c19Huge), "substring-length-overflow"},
+	{regexp.MustCompile(`^[a-z]+:FORMAT:(runtime-error-makeslice-len-out-of-range|strings-.*repeat.*|out-of-memory|timeout)$`), regexp.MustCompile(`%[-+ 0]?[0-9]{7,}|%[-+ 0]?[0-9]*\.[0-9]{7,}`), "format-huge-width"},
 }
 
 func stableKey(generic, arg string) string {
